@@ -977,7 +977,7 @@ impl Check for C07 {
          Non-trivial = >= 2 paths, >= 1 op, >= 1 sibling in the multi-proof; distinct = distinct serialized case".into()
     }
     fn cases(tier: Tier) -> u32 {
-        tier.pick(240000, 3000000)
+        tier.pick(480000, 4000000)
     }
     fn strategy(_tier: Tier) -> BoxedStrategy<CoreCase> {
         case_strategy(40, 0).boxed()
